@@ -163,19 +163,26 @@ CHECKS = {
          "required flags/counted/repeated flags/arguments x {required, optional, many, some, fallback, last}, positional suffix, "
          "subcommand trees with aliases), `compile` (the combinator term) and `denote` (one left-to-right attribution scan giving "
          "every token a role, then arity and value checks; Unspecified exactly for the property's carve-outs and help requests). "
-         "PROVED (coq/Props/C01.v): C01_sentences_accepted_flat and C01_sentences_accepted_chain -- for every flat level and every "
-         "chain of nested subcommands (decidable conditions flat_ok / chain_ok), denote = Accept v implies run_inner = Ok v, for "
-         "every argv; C01_flat_total -- every vector yields a value, a document or an error, never a panic outcome or fuel "
-         "exhaustion; by refinement in layers: AbsSim.v (the "
-         "evaluator of the fragment flags/arguments/positionals/construct!/optional/many/some/count/last/fallback depends on the "
-         "ledger only through its live tokens: simulation with an interpreter over token lists, mutual induction over the parser) "
-         "and ConvRefine.v (that interpreter on the compiled level computes what the scan attributes: each item pops exactly its "
-         "own occurrences in order, the positional suffix takes the remaining words, nothing is left), ConvChain.v (command step: "
-         "scope narrowing, deeper levels' tokens are inert). Also proved: a key no item of a whole subcommand tree owns is never "
-         "swallowed (corollary of C05). NOT proved: levels with a choice of several subcommands; the rest of Reject -> stderr. Those are decided per run by conformance of the implementation against `denote` (4000 vectors quick: "
-         "sentences in every spelling/order, near-miss and mutated non-sentences, salted vectors; flat_ok is evaluated on every "
-         "generated level so the evidence says how many cases the theorem covers) and of the evaluator model on Coq's `compile`.",
-         "4/C01", "Rocq proof by refinement (token-list interpreter simulation + scan/attribution equivalence) for flat levels + conformance differential implementation vs denote"),
+         "PROVED (coq/Props/C01.v): C01_sentences_accepted_flat / _chain / _tree -- for every flat level, every chain of nested "
+         "subcommands and every WHOLE SUBCOMMAND TREE (any number of subcommands with aliases at every level; decidable "
+         "conditions flat_ok / chain_ok / tree_ok), denote = Accept v implies run_inner = Ok v, for every argv; "
+         "C01_flat_complete -- for flat levels BOTH directions: on every vector the grammar specifies, run_inner = Ok v exactly "
+         "when denote = Accept v; C01_flat_rejected_never_ok -- what the grammar rejects never yields a value; C01_flat_total "
+         "-- every vector yields a value, a document or an error, never a panic outcome or fuel exhaustion. By refinement in "
+         "layers: AbsSim.v (the evaluator of the fragment flags/arguments/positionals/construct!/optional/many/some/count/last/"
+         "fallback depends on the ledger only through its live tokens: simulation with an interpreter over token lists, mutual "
+         "induction over the parser), ConvRefine.v (that interpreter on the compiled level computes what the scan attributes: "
+         "each item pops exactly its own occurrences in order, the positional suffix takes the remaining words, nothing is left), "
+         "ConvChain.v (command step: scope narrowing, deeper levels' tokens are inert), ConvTree.v (the alternative combinator "
+         "over subcommands: exactly the branch whose name stands first on the line succeeds, the others fail without consuming), "
+         "ConvSound.v (the converse: an item read backwards took exactly its occurrences or left one behind; what the scan "
+         "rejects -- unknown name, name without value, stray value, word without a positional -- is a token no field can remove). "
+         "Also proved: a key no item of a whole subcommand tree owns is never swallowed (corollary of C05). NOT proved: the "
+         "Reject half for levels with subcommands beyond unknown names. That is decided per run by conformance of the "
+         "implementation against `denote` (4000 vectors quick: sentences in every spelling/order, near-miss and mutated "
+         "non-sentences, salted vectors; flat_ok/chain_ok/tree_ok are evaluated on every generated level so the evidence says how "
+         "many cases each theorem covers -- all of them in the current generator) and of the evaluator model on Coq's `compile`.",
+         "4/C01", "Rocq proof by refinement (token-list interpreter simulation + scan/attribution equivalence, both directions for flat levels, Accept for subcommand trees) + conformance differential implementation vs denote"),
  "C17": ("proof", "PARTIAL by nature: the proc-macro (syn-level Rust) is not modelled. coq/Model/Derive.v states the documented rules "
          "(implicit consumer and shape from the field type, kebab-case naming incl. single-character names, what short/long/env/"
          "argument/positional/fallback/doc comments override, unit-variant and command names, group_help of nested parsers) as a "
